@@ -30,7 +30,7 @@ def check(repo, res, tier):
     from . import c14
     from .common import borrow
     res.rule('C06.W5', 'adopted C14.G2: the compute and data demand a task carries are those of its own workflow node')
-    borrow(repo, res, tier, c14, {'C14.G2'}, 'C06.W5')
+    borrow(repo, res, tier, c14, {'C14.G2', 'C14.G5'}, 'C06.W5')
     from . import c16
     res.rule('C06.W6', 'adopted C16.K2: machine speed and bandwidth are scaled to the configured timestep like every other rate')
     borrow(repo, res, tier, c16, {'C16.K2'}, 'C06.W6')
